@@ -404,14 +404,15 @@ func (sq *Queue) applyConf(conf configs.QueueConfig, silence bool) (*resources.R
 	}
 
 	oldMaxResource := sq.maxResource
-	// Load the max & guaranteed resources and maxApps for all but the root queue
+	// Load the max & guaranteed resources for all but the root queue
 	if sq.Name != configs.RootQueue {
 		if err = sq.setResourcesFromConf(conf.Resources); err != nil {
 			return nil, err
 		}
-		sq.maxRunningApps = conf.MaxApplications
-		sq.updateMaxRunningAppsMetrics()
 	}
+	// maxApps can be set on all queues: the root takes it from the config when it is created, do the same on a reload
+	sq.maxRunningApps = conf.MaxApplications
+	sq.updateMaxRunningAppsMetrics()
 	sq.properties = conf.Properties
 	return oldMaxResource, nil
 }
